@@ -258,4 +258,19 @@ theorem C12_switch_attempts (P : Program) (val : Node → Option Val) (hsw : SwP
     have a := hall _ hm
     exact ⟨a.1, a.2.2⟩
 
+/-- the same for pipelines with one-ofs -/
+theorem C12_oneof_attempts (P : Program) (val : Node → Option Val) (hone : OneP P) (hsol : SolutionOne P val)
+    (s : St) (log : List Obs) (h : Exec P s log) :
+    (∀ n inv k kw, Obs.body n inv k kw ∈ log → 1 ≤ k ∧ k ≤ (P.cfg n).attemptsEff ∧
+      ∀ j, 1 ≤ j → j < k → Retry.decide (P.cfg n) j (P.body n kw 0 j) = .retry) ∧
+    (∀ n kw, Obs.dflt n kw ∈ log → kw = kwFrom P val n ∧ finalOf P n (kwFrom P val n) = some .default) := by
+  have hall := (safe_exec hone hsol h).2
+  refine ⟨?_, ?_⟩
+  · intro n inv k kw hm
+    have a : Att P val n k kw inv := hall _ hm
+    exact ⟨a.kpos, a.kle, a.pre⟩
+  · intro n kw hm
+    have a := hall _ hm
+    exact ⟨a.1, a.2.2⟩
+
 end MLPE.Eng
